@@ -34,6 +34,9 @@ impl OwnerModel {
             _ => None,
         }
     }
+    pub fn seqs_of(&self, conn_id: u64) -> Vec<u32> {
+        self.slots.values().filter(|v| v.1 == conn_id).map(|v| v.0).collect()
+    }
     pub fn remove_link(&mut self, conn_id: u64) {
         self.slots.retain(|_, v| v.1 != conn_id);
     }
